@@ -743,22 +743,48 @@ func (fc *fileCtx) substitutable(h *helper, param types.Object, arg ast.Expr) bo
 	}
 	hinfo := h.f.Info()
 	ok := true
+	// a parameter holding a struct or array is the helper's own copy: anything that writes into it
+	// (a field assignment, &p.f, a pointer-receiver method called on it) would, after substitution,
+	// write into the caller's variable instead
+	valueCopy := false
+	if param != nil {
+		switch param.Type().Underlying().(type) {
+		case *types.Struct, *types.Array:
+			valueCopy = true
+		}
+	}
+	writes := func(e ast.Expr) bool {
+		if o := objOf(hinfo, e); o == param && param != nil {
+			return true
+		}
+		return valueCopy && param != nil && rootObj(hinfo, e) == param
+	}
 	ast.Inspect(h.f.Decl, func(n ast.Node) bool {
 		switch x := n.(type) {
 		case *ast.AssignStmt:
 			for _, l := range x.Lhs {
-				if o := objOf(hinfo, l); o == param && param != nil {
+				if writes(l) {
 					ok = false
 				}
 			}
 		case *ast.IncDecStmt:
-			if o := objOf(hinfo, x.X); o == param && param != nil {
+			if writes(x.X) {
 				ok = false
 			}
 		case *ast.UnaryExpr:
-			if x.Op == token.AND {
-				if o := objOf(hinfo, x.X); o == param && param != nil {
-					ok = false
+			if x.Op == token.AND && writes(x.X) {
+				ok = false
+			}
+		case *ast.SelectorExpr:
+			if valueCopy && rootObj(hinfo, x.X) == param && param != nil {
+				if sel := hinfo.Selections[x]; sel != nil && sel.Kind() == types.MethodVal {
+					if fn, isFn := sel.Obj().(*types.Func); isFn {
+						if sig, isSig := fn.Type().(*types.Signature); isSig && sig.Recv() != nil {
+							if _, ptrRecv := sig.Recv().Type().(*types.Pointer); ptrRecv {
+								ok = false // implicit &p
+							}
+						}
+					}
 				}
 			}
 		case *ast.RangeStmt:
